@@ -8,6 +8,7 @@ import (
 	"errors"
 	"fmt"
 	"runtime"
+	"sort"
 	"sync"
 	"sync/atomic"
 	"time"
@@ -98,89 +99,329 @@ func waitDrained(o *obs) bool {
 }
 
 // ------------------------------------------------------------------------------------------------
-// sites: the real components, with the decorated throttler and a "hold" callback as the work
+// sites: the real components, with the decorated throttler. Every message carries a tag that tells the
+// harness-supplied stubs (data factory, intercepted data, processor, antiflood, pool, storer, sender) what
+// to do with it: "ok" = valid work that calls hold(); "free" = valid work that never holds; the other
+// tags make the message fail at one particular stage.
 
 var msh = &marshal.GogoProtoMarshalizer{}
 
 var siteNames = []string{"SingleDataInterceptor", "MultiDataInterceptor", "resolver"}
 
+var errInjected = errors.New("injected failure")
+
+const (
+	mePeer         = core.PeerID("me")
+	preferredPeer  = core.PeerID("preferred-peer")
+	flooderPeer    = core.PeerID("flooder")
+	topicFlooder   = core.PeerID("topic-flooder")
+	batchFlooder   = core.PeerID("batch-flooder")
+	ineligiblePeer = core.PeerID("ineligible-originator")
+)
+
 type site struct {
-	name    string
-	busy    func(err error) bool
-	deliver func(sender, i int) error
+	name string
+	busy func(err error) bool
+	// deliver sends one valid message of a regular peer (it asks the throttler); tag "ok" or "free"
+	deliver func(tag string, sender, i int) error
+	// fail sends one message that fails at the stage named by kind; async tells that a worker goroutine finishes it
+	fail      func(kind string, i int, rng *vk.Rand) (err error, async bool)
+	failKinds []string
+	// preferred sends one valid "free" message from a preferred peer (self=false) or from the node to itself
+	preferred func(i int, self bool) error
+	saved     *int64 // completed Save calls (interceptors)
 }
+
+func tagOf(b []byte) string {
+	for i, c := range b {
+		if c == '|' {
+			return string(b[:i])
+		}
+	}
+	return string(b)
+}
+
+func payload(tag string, a, b int) []byte { return []byte(fmt.Sprintf("%s|%d-%d", tag, a, b)) }
 
 func dataFactory() *mock.InterceptedDataFactoryStub {
 	return &mock.InterceptedDataFactoryStub{CreateCalled: func(buff []byte) (process.InterceptedData, error) {
 		h := append([]byte{}, buff...)
+		tag := tagOf(h)
+		if tag == "fac" {
+			return nil, errInjected
+		}
 		return &testscommon.InterceptedDataStub{
-			CheckValidityCalled:     func() error { return nil },
-			IsForCurrentShardCalled: func() bool { return true },
+			CheckValidityCalled: func() error {
+				switch tag {
+				case "val":
+					return errInjected
+				case "ver":
+					return process.ErrInvalidTransactionVersion
+				case "chn":
+					return process.ErrInvalidChainID
+				}
+				return nil
+			},
+			IsForCurrentShardCalled: func() bool { return tag != "shard" },
 			HashCalled:              func() []byte { return h },
 		}, nil
 	}}
 }
 
+func interceptorAntiflood() *mock.P2PAntifloodHandlerStub {
+	return &mock.P2PAntifloodHandlerStub{
+		CanProcessMessageCalled: func(_ p2p.MessageP2P, from core.PeerID) error {
+			if from == flooderPeer {
+				return errInjected
+			}
+			return nil
+		},
+		CanProcessMessagesOnTopicCalled: func(peer core.PeerID, _ string, n uint32, _ uint64, _ []byte) error {
+			if peer == topicFlooder || (peer == batchFlooder && n > 1) {
+				return errInjected
+			}
+			return nil
+		},
+		IsOriginatorEligibleForTopicCalled: func(pid core.PeerID, _ string) error {
+			if pid == ineligiblePeer {
+				return errInjected
+			}
+			return nil
+		},
+	}
+}
+
+func interceptorProcessor(hold func(), saved *int64) *mock.InterceptorProcessorStub {
+	return &mock.InterceptorProcessorStub{
+		ValidateCalled: func(d process.InterceptedData) error {
+			switch tagOf(d.Hash()) {
+			case "ok":
+				hold()
+			case "pval":
+				return errInjected
+			}
+			return nil
+		},
+		SaveCalled: func(d process.InterceptedData) error {
+			atomic.AddInt64(saved, 1)
+			if tagOf(d.Hash()) == "psave" {
+				return errInjected
+			}
+			return nil
+		},
+	}
+}
+
 func peerOf(sender int) core.PeerID { return core.PeerID(fmt.Sprintf("peer-%d", sender)) }
 
+func p2pMsg(data []byte, originator core.PeerID) *mock.P2PMessageMock {
+	return &mock.P2PMessageMock{DataField: data, PeerField: originator, FromField: []byte(originator), TopicField: "t"}
+}
+
+var dataTags = []string{"fac", "val", "ver", "chn", "shard", "pval", "psave"}
+
 func buildSite(kind int, thr *obs, hold func()) (*site, error) {
+	saved := new(int64)
+	holder := &p2pmocks.PeersHolderStub{ContainsCalled: func(p core.PeerID) bool { return p == preferredPeer }}
+	isBusy := func(err error) bool { return errors.Is(err, process.ErrSystemBusy) }
 	switch kind {
 	case 0:
 		sdi, err := interceptors.NewSingleDataInterceptor(interceptors.ArgSingleDataInterceptor{
-			Topic: "t", Throttler: thr, AntifloodHandler: &mock.P2PAntifloodHandlerStub{}, WhiteListRequest: &testscommon.WhiteListHandlerStub{},
-			PreferredPeersHolder: &p2pmocks.PeersHolderStub{}, CurrentPeerId: "me", DataFactory: dataFactory(),
-			Processor: &mock.InterceptorProcessorStub{
-				ValidateCalled: func(process.InterceptedData) error { hold(); return nil },
-				SaveCalled:     func(process.InterceptedData) error { return nil }},
+			Topic: "t", Throttler: thr, AntifloodHandler: interceptorAntiflood(), WhiteListRequest: &testscommon.WhiteListHandlerStub{},
+			PreferredPeersHolder: holder, CurrentPeerId: mePeer, DataFactory: dataFactory(), Processor: interceptorProcessor(hold, saved),
 		})
 		if err != nil {
 			return nil, err
 		}
-		return &site{name: siteNames[0], busy: func(err error) bool { return errors.Is(err, process.ErrSystemBusy) },
-			deliver: func(sender, i int) error {
-				p := peerOf(sender)
-				msg := &mock.P2PMessageMock{DataField: []byte(fmt.Sprintf("m-%d-%d", sender, i)), PeerField: p, FromField: []byte(p), TopicField: "t"}
-				return sdi.ProcessReceivedMessage(msg, p)
-			}}, nil
+		st := &site{name: siteNames[0], busy: isBusy, saved: saved}
+		st.deliver = func(tag string, sender, i int) error {
+			p := peerOf(sender)
+			return sdi.ProcessReceivedMessage(p2pMsg(payload(tag, sender, i), p), p)
+		}
+		st.failKinds = append([]string{"nildata", "flood", "topicflood", "originator"}, dataTags...)
+		st.fail = func(k string, i int, _ *vk.Rand) (error, bool) {
+			p := peerOf(900)
+			switch k {
+			case "nildata":
+				return sdi.ProcessReceivedMessage(p2pMsg(nil, p), p), false
+			case "flood":
+				return sdi.ProcessReceivedMessage(p2pMsg(payload("free", 0, i), flooderPeer), flooderPeer), false
+			case "topicflood":
+				return sdi.ProcessReceivedMessage(p2pMsg(payload("free", 0, i), topicFlooder), topicFlooder), false
+			case "originator":
+				return sdi.ProcessReceivedMessage(p2pMsg(payload("free", 0, i), ineligiblePeer), p), false
+			}
+			return sdi.ProcessReceivedMessage(p2pMsg(payload(k, 0, i), p), p), k == "pval" || k == "psave"
+		}
+		st.preferred = func(i int, self bool) error {
+			if self {
+				m := p2pMsg(payload("free", 1, i), mePeer)
+				m.SignatureField = []byte(mePeer)
+				return sdi.ProcessReceivedMessage(m, mePeer)
+			}
+			return sdi.ProcessReceivedMessage(p2pMsg(payload("free", 2, i), preferredPeer), preferredPeer)
+		}
+		return st, nil
 	case 1:
 		mdi, err := interceptors.NewMultiDataInterceptor(interceptors.ArgMultiDataInterceptor{
-			Topic: "t", Marshalizer: msh, Throttler: thr, AntifloodHandler: &mock.P2PAntifloodHandlerStub{}, WhiteListRequest: &testscommon.WhiteListHandlerStub{},
-			PreferredPeersHolder: &p2pmocks.PeersHolderStub{}, CurrentPeerId: "me", DataFactory: dataFactory(),
-			Processor: &mock.InterceptorProcessorStub{
-				ValidateCalled: func(process.InterceptedData) error { hold(); return nil },
-				SaveCalled:     func(process.InterceptedData) error { return nil }},
+			Topic: "t", Marshalizer: msh, Throttler: thr, AntifloodHandler: interceptorAntiflood(), WhiteListRequest: &testscommon.WhiteListHandlerStub{},
+			PreferredPeersHolder: holder, CurrentPeerId: mePeer, DataFactory: dataFactory(), Processor: interceptorProcessor(hold, saved),
 		})
 		if err != nil {
 			return nil, err
 		}
-		return &site{name: siteNames[1], busy: func(err error) bool { return errors.Is(err, process.ErrSystemBusy) },
-			deliver: func(sender, i int) error {
-				p := peerOf(sender)
-				buff, _ := msh.Marshal(&batch.Batch{Data: [][]byte{[]byte(fmt.Sprintf("m-%d-%d", sender, i))}})
-				msg := &mock.P2PMessageMock{DataField: buff, PeerField: p, FromField: []byte(p), TopicField: "t"}
-				return mdi.ProcessReceivedMessage(msg, p)
-			}}, nil
+		pack := func(elems ...[]byte) []byte {
+			buff, _ := msh.Marshal(&batch.Batch{Data: elems})
+			return buff
+		}
+		st := &site{name: siteNames[1], busy: isBusy, saved: saved}
+		st.deliver = func(tag string, sender, i int) error {
+			p := peerOf(sender)
+			return mdi.ProcessReceivedMessage(p2pMsg(pack(payload(tag, sender, i)), p), p)
+		}
+		st.failKinds = append([]string{"nildata", "flood", "topicflood", "batchflood", "originator", "garbage", "emptybatch"}, dataTags...)
+		st.fail = func(k string, i int, rng *vk.Rand) (error, bool) {
+			p := peerOf(900)
+			switch k {
+			case "nildata":
+				return mdi.ProcessReceivedMessage(p2pMsg(nil, p), p), false
+			case "flood":
+				return mdi.ProcessReceivedMessage(p2pMsg(pack(payload("free", 0, i)), flooderPeer), flooderPeer), false
+			case "topicflood":
+				return mdi.ProcessReceivedMessage(p2pMsg(pack(payload("free", 0, i)), topicFlooder), topicFlooder), false
+			case "batchflood": // refused by the per-batch antiflood question, after the slot was taken
+				return mdi.ProcessReceivedMessage(p2pMsg(pack(payload("free", 0, i), payload("free", 1, i)), batchFlooder), batchFlooder), false
+			case "originator":
+				return mdi.ProcessReceivedMessage(p2pMsg(pack(payload("free", 0, i)), ineligiblePeer), p), false
+			case "garbage":
+				return mdi.ProcessReceivedMessage(p2pMsg([]byte{0xff, 0xff, 0xff, 0xff, 0x07, byte(i)}, p), p), false
+			case "emptybatch":
+				return mdi.ProcessReceivedMessage(p2pMsg(pack(), p), p), false
+			}
+			// a batch of 1..4 elements with exactly one bad element at a random position
+			n := rng.Range(1, 4)
+			bad := rng.Intn(n)
+			var elems [][]byte
+			for j := 0; j < n; j++ {
+				if j == bad {
+					elems = append(elems, payload(k, j, i))
+				} else {
+					elems = append(elems, payload("free", j, i))
+				}
+			}
+			return mdi.ProcessReceivedMessage(p2pMsg(pack(elems...), p), p), k == "pval" || k == "psave"
+		}
+		st.preferred = func(i int, self bool) error {
+			if self {
+				m := p2pMsg(pack(payload("free", 1, i)), mePeer)
+				m.SignatureField = []byte(mePeer)
+				return mdi.ProcessReceivedMessage(m, mePeer)
+			}
+			return mdi.ProcessReceivedMessage(p2pMsg(pack(payload("free", 2, i)), preferredPeer), preferredPeer)
+		}
+		return st, nil
 	default:
 		res, err := resolvers.NewMiniblockResolver(resolvers.ArgMiniblockResolver{
-			SenderResolver: &drmock.TopicResolverSenderStub{SendCalled: func([]byte, core.PeerID) error { hold(); return nil }},
-			MiniBlockPool: &testscommon.CacherStub{PeekCalled: func(key []byte) (interface{}, bool) {
-				return &block.MiniBlock{TxHashes: [][]byte{key}}, true
+			SenderResolver: &drmock.TopicResolverSenderStub{SendCalled: func(buff []byte, _ core.PeerID) error {
+				b := batch.Batch{}
+				if msh.Unmarshal(&b, buff) == nil && len(b.Data) > 0 {
+					mb := block.MiniBlock{}
+					if msh.Unmarshal(&mb, b.Data[0]) == nil && len(mb.TxHashes) > 0 {
+						switch tagOf(mb.TxHashes[0]) {
+						case "ok":
+							hold()
+						case "send":
+							return errInjected
+						}
+					}
+				}
+				return nil
 			}},
-			MiniBlockStorage: &testscommon.StorerStub{}, Marshalizer: msh, AntifloodHandler: &drmock.P2PAntifloodHandlerStub{},
+			MiniBlockPool: &testscommon.CacherStub{PeekCalled: func(key []byte) (interface{}, bool) {
+				if tagOf(key) == "miss" {
+					return nil, false
+				}
+				return &block.MiniBlock{TxHashes: [][]byte{append([]byte{}, key...)}}, true
+			}},
+			MiniBlockStorage: &testscommon.StorerStub{SearchFirstCalled: func([]byte) ([]byte, error) { return nil, errInjected }},
+			Marshalizer:      msh,
+			AntifloodHandler: &drmock.P2PAntifloodHandlerStub{
+				CanProcessMessageCalled: func(_ p2p.MessageP2P, from core.PeerID) error {
+					if from == flooderPeer {
+						return errInjected
+					}
+					return nil
+				},
+				CanProcessMessagesOnTopicCalled: func(peer core.PeerID, _ string, _ uint32, _ uint64, _ []byte) error {
+					if peer == topicFlooder {
+						return errInjected
+					}
+					return nil
+				},
+			},
 			Throttler: thr, DataPacker: &drmock.DataPackerStub{},
 		})
 		if err != nil {
 			return nil, err
 		}
 		var _ p2p.MessageProcessor = res
-		return &site{name: siteNames[2], busy: func(err error) bool { return errors.Is(err, dataRetriever.ErrSystemBusy) },
-			deliver: func(sender, i int) error {
-				p := peerOf(sender)
-				buff, _ := msh.Marshal(&dataRetriever.RequestData{Type: dataRetriever.HashType, Value: []byte(fmt.Sprintf("mb-%d-%d", sender, i))})
-				msg := &drmock.P2PMessageMock{DataField: buff, PeerField: p, FromField: []byte(p), TopicField: "t"}
-				return res.ProcessReceivedMessage(msg, p)
-			}}, nil
+		request := func(rd *dataRetriever.RequestData, p core.PeerID) error {
+			buff, _ := msh.Marshal(rd)
+			return res.ProcessReceivedMessage(&drmock.P2PMessageMock{DataField: buff, PeerField: p, FromField: []byte(p), TopicField: "t"}, p)
+		}
+		st := &site{name: siteNames[2], busy: func(err error) bool { return errors.Is(err, dataRetriever.ErrSystemBusy) }, saved: saved}
+		st.deliver = func(tag string, sender, i int) error {
+			return request(&dataRetriever.RequestData{Type: dataRetriever.HashType, Value: payload(tag, sender, i)}, peerOf(sender))
+		}
+		st.failKinds = []string{"nilmessage", "flood", "topicflood", "garbage", "nilvalue", "type", "miss", "send", "badarray", "arraymiss"}
+		st.fail = func(k string, i int, _ *vk.Rand) (error, bool) {
+			p := peerOf(900)
+			switch k {
+			case "nilmessage":
+				return res.ProcessReceivedMessage(nil, p), false
+			case "flood":
+				return request(&dataRetriever.RequestData{Type: dataRetriever.HashType, Value: payload("free", 0, i)}, flooderPeer), false
+			case "topicflood":
+				return request(&dataRetriever.RequestData{Type: dataRetriever.HashType, Value: payload("free", 0, i)}, topicFlooder), false
+			case "garbage":
+				return res.ProcessReceivedMessage(&drmock.P2PMessageMock{DataField: []byte{0xff, 0xff, 0xff, 0xff, 0x07, byte(i)}, PeerField: p, FromField: []byte(p), TopicField: "t"}, p), false
+			case "nilvalue":
+				return request(&dataRetriever.RequestData{Type: dataRetriever.HashType}, p), false
+			case "type":
+				return request(&dataRetriever.RequestData{Type: dataRetriever.NonceType, Value: payload("free", 0, i)}, p), false
+			case "miss":
+				return request(&dataRetriever.RequestData{Type: dataRetriever.HashType, Value: payload("miss", 0, i)}, p), false
+			case "send":
+				return request(&dataRetriever.RequestData{Type: dataRetriever.HashType, Value: payload("send", 0, i)}, p), false
+			case "badarray":
+				return request(&dataRetriever.RequestData{Type: dataRetriever.HashArrayType, Value: []byte{0xff, 0xff, 0xff, 0xff, 0x07}}, p), false
+			default: // arraymiss: one of the requested hashes is unknown
+				v, _ := msh.Marshal(&batch.Batch{Data: [][]byte{payload("free", 0, i), payload("miss", 1, i)}})
+				return request(&dataRetriever.RequestData{Type: dataRetriever.HashArrayType, Value: v}, p), false
+			}
+		}
+		return st, nil
 	}
+}
+
+// settle waits (bounded) until every start has its end; ends may never exceed starts
+func settle(o *obs) (starts, ends int64, ok bool) {
+	for i := 0; i < 400000; i++ {
+		ends = atomic.LoadInt64(&o.ends)
+		starts = atomic.LoadInt64(&o.starts)
+		if ends > starts {
+			return starts, ends, false
+		}
+		if ends == starts {
+			return starts, ends, true
+		}
+		if i < 2000 {
+			runtime.Gosched()
+		} else {
+			time.Sleep(50 * time.Microsecond)
+		}
+	}
+	return starts, ends, false
 }
 
 // ------------------------------------------------------------------------------------------------
@@ -208,13 +449,23 @@ func accountingCase(r *vk.Run, c *vk.Case) {
 				running++
 				trace = append(trace, "Start")
 			}
-		case x < 9:
+		case x < 8:
 			if running > 0 {
 				o.EndProcessing()
 				running--
 				trace = append(trace, "End")
 			}
+		case x < 9: // a caller that is allowed to skip the question (preferred peer): takes a slot, works, returns it
+			o.StartProcessing()
+			running++
+			trace = append(trace, "Start(unasked)")
+			if rng.Chance(1, 2) {
+				o.EndProcessing()
+				running--
+				trace = append(trace, "End")
+			}
 		default: // fill up to the brim: exactly max starts are granted
+			before := running
 			for o.CanProcess() {
 				o.StartProcessing()
 				running++
@@ -224,8 +475,8 @@ func accountingCase(r *vk.Run, c *vk.Case) {
 				}
 			}
 			r.Eval(1)
-			if running != int(limit) {
-				r.Violation(c.Idx, "throttler-accounting", fmt.Sprintf("max=%d: filling sequentially granted %d starts", limit, running), map[string]interface{}{"max": limit, "ops": trace})
+			if running < int(limit) || (running > int(limit) && running != before) {
+				r.Violation(c.Idx, "throttler-accounting", fmt.Sprintf("max=%d: filling sequentially granted starts up to %d running", limit, running), map[string]interface{}{"max": limit, "ops": trace})
 				return
 			}
 		}
@@ -279,49 +530,167 @@ func accountingCase(r *vk.Run, c *vk.Case) {
 }
 
 // ------------------------------------------------------------------------------------------------
-// B. sequential sub-check at the real call sites: slots held open, strict
+// B. sequential checks at the real call sites (one delivery at a time):
+//    B1 error-path accounting: messages failing at every stage, starts == ends after each completed message;
+//    B2 strict sub-check: slots held open, exactly max admissions;
+//    B3 preferred-peer interplay (interceptors): max asked tasks held open, preferred/self messages run
+//       start to end, further asked messages must all be refused.
+
+type seqRun struct {
+	r       *vk.Run
+	c       *vk.Case
+	st      *site
+	o       *obs
+	limit   int32
+	release chan struct{}
+	entered chan struct{}
+	wg      sync.WaitGroup
+	fails   map[string]int
+	order   []string
+	// imbalanced: a start/end imbalance was already reported for this case; later balance checks are skipped
+	imbalanced bool
+}
+
+func (q *seqRun) detail(extra map[string]interface{}) map[string]interface{} {
+	d := map[string]interface{}{"site": q.st.name, "max": q.limit, "failure_kinds_before": q.fails, "failure_order": q.order,
+		"starts": atomic.LoadInt64(&q.o.starts), "ends": atomic.LoadInt64(&q.o.ends)}
+	for k, v := range extra {
+		d[k] = v
+	}
+	return d
+}
+
+// deliverHeld delivers one asked "ok" message whose work blocks until release; reports whether it was admitted
+func (q *seqRun) deliverHeld(sender, i int) (admitted, busy bool) {
+	done := make(chan error, 1)
+	q.wg.Add(1)
+	go func() { // the resolver works inside the call, so every delivery gets its own goroutine
+		defer q.wg.Done()
+		done <- q.st.deliver("ok", sender, i)
+	}()
+	// one delivery at a time: wait until it is either holding a slot or has returned
+	select {
+	case <-q.entered:
+		return true, false
+	case err := <-done:
+		if err == nil {
+			<-q.entered // interceptors return before the work starts: wait for the worker to take its slot
+			return true, false
+		}
+		return false, q.st.busy(err)
+	}
+}
+
+func (q *seqRun) releaseAll() bool {
+	close(q.release)
+	q.wg.Wait()
+	q.release = make(chan struct{})
+	if q.imbalanced {
+		return true
+	}
+	_, _, ok := settle(q.o)
+	return ok
+}
+
+// balance asserts starts == ends once the message just delivered is completed
+func (q *seqRun) balance(after string) bool {
+	if q.imbalanced {
+		return true
+	}
+	starts, ends, ok := settle(q.o)
+	q.r.Eval(1)
+	if ok {
+		return true
+	}
+	what := "an EndProcessing is missing (slot leaked)"
+	if ends > starts {
+		what = "EndProcessing was called more often than StartProcessing (the throttler's counter drops below the number of running tasks)"
+	}
+	q.r.Violation(q.c.Idx, "site="+q.st.name+" start-end-imbalance",
+		fmt.Sprintf("%s, max=%d: after the completed message [%s]: %d starts, %d ends: %s", q.st.name, q.limit, after, starts, ends, what),
+		q.detail(map[string]interface{}{"after": after}))
+	q.imbalanced = true
+	return false
+}
 
 func sequentialCase(r *vk.Run, c *vk.Case, kind int) {
 	rng := c.Rng
 	limit := int32(rng.Range(1, 8))
 	extra := rng.Range(1, 5)
 	o := newObs(limit, rng.Intn(2))
-	release := make(chan struct{})
-	entered := make(chan struct{}, 64)
+	q := &seqRun{r: r, c: c, o: o, limit: limit, release: make(chan struct{}), entered: make(chan struct{}, 64), fails: map[string]int{}}
 	hold := func() {
-		entered <- struct{}{}
-		<-release
+		q.entered <- struct{}{}
+		<-q.release
 	}
 	st, err := buildSite(kind, o, hold)
 	if err != nil {
 		r.Inconclusive("cannot build " + siteNames[kind] + ": " + err.Error())
 		return
 	}
+	q.st = st
+
+	// B1: error paths (and some valid, completed messages in between); most histories contain each kind at
+	// least once, some repeat one kind many times (a miscounted path adds up)
+	nFail := rng.Range(0, 3*len(st.failKinds))
+	var plan []string
+	if nFail > 0 {
+		for _, j := range rng.Perm(len(st.failKinds)) {
+			if len(plan) < nFail {
+				plan = append(plan, st.failKinds[j])
+			}
+		}
+		for len(plan) < nFail {
+			plan = append(plan, st.failKinds[rng.Intn(len(st.failKinds))])
+		}
+		if rng.Chance(1, 3) {
+			k := st.failKinds[rng.Intn(len(st.failKinds))]
+			for j := rng.Range(2, int(limit)+3); j > 0; j-- {
+				plan = append(plan, k)
+			}
+		}
+		shuffled := make([]string, len(plan))
+		for i, j := range rng.Perm(len(plan)) {
+			shuffled[i] = plan[j]
+		}
+		plan = shuffled
+	}
+	for i, k := range plan {
+		if rng.Chance(1, 5) {
+			err := st.deliver("free", 800, i)
+			r.Count("errorpath_valid_completed", 1)
+			if err != nil && !st.busy(err) {
+				r.Inconclusive(fmt.Sprintf("%s refused a valid message in the error-path phase: %v", st.name, err))
+			}
+			q.balance("valid message")
+		}
+		err, _ := st.fail(k, i, rng)
+		q.fails[k]++
+		q.order = append(q.order, k)
+		r.Count("errorpath site="+st.name+" kind="+k, 1)
+		if err != nil {
+			r.Count("errorpath_returned_error", 1)
+		}
+		q.balance("failing message kind=" + k)
+	}
+	if peak := atomic.LoadInt32(&o.max); peak > limit { // nothing is held in B1
+		r.Violation(c.Idx, "site="+st.name+" mode=sequential", fmt.Sprintf("%s, max=%d: %d in flight during sequential completed deliveries", st.name, limit, peak), q.detail(nil))
+		return
+	}
+
+	// B2: strict sub-check, two waves
 	for wave := 0; wave < 2; wave++ {
 		accepted, busy, other := 0, 0, 0
 		total := int(limit) + extra
-		var wg sync.WaitGroup
 		for i := 0; i < total; i++ {
-			done := make(chan error, 1)
-			wg.Add(1)
-			go func(i int) { // the resolver works inside the call, so every delivery gets its own goroutine
-				defer wg.Done()
-				done <- st.deliver(wave, i)
-			}(i)
-			// one delivery at a time: wait until it is either holding a slot or has returned
-			select {
-			case <-entered:
+			adm, b := q.deliverHeld(wave, i)
+			switch {
+			case adm:
 				accepted++
-			case err := <-done:
-				if err == nil {
-					// interceptors return before the work starts: wait for the worker to take its slot
-					<-entered
-					accepted++
-				} else if st.busy(err) {
-					busy++
-				} else {
-					other++
-				}
+			case b:
+				busy++
+			default:
+				other++
 			}
 		}
 		r.Eval(total)
@@ -330,10 +699,9 @@ func sequentialCase(r *vk.Run, c *vk.Case, kind int) {
 		peak := atomic.LoadInt32(&o.max)
 		if accepted > int(limit) || peak > limit {
 			r.Violation(c.Idx, "site="+st.name+" mode=sequential",
-				fmt.Sprintf("%s, max=%d, slots held open, deliveries one at a time: %d admitted, %d in flight (wave %d)", st.name, limit, accepted, peak, wave),
-				map[string]interface{}{"site": st.name, "max": limit, "delivered": total, "admitted": accepted, "refused": busy, "in_flight_peak": peak, "wave": wave})
-			close(release)
-			wg.Wait()
+				fmt.Sprintf("%s, max=%d, slots held open, deliveries one at a time: %d admitted and running, decorator peak %d (wave %d; %d failing messages of kinds %v before)", st.name, limit, accepted, peak, wave, len(q.order), kindsOf(q.fails)),
+				q.detail(map[string]interface{}{"delivered": total, "admitted": accepted, "refused": busy, "in_flight_peak": peak, "wave": wave}))
+			q.releaseAll()
 			return
 		}
 		if other > 0 {
@@ -342,19 +710,84 @@ func sequentialCase(r *vk.Run, c *vk.Case, kind int) {
 		if accepted < int(limit) {
 			r.Count("sequential_under_admission", 1) // not an overshoot: recorded only
 		}
-		close(release)
-		wg.Wait()
-		if !waitDrained(o) {
-			r.Inconclusive("slots were not returned within the wait bound")
+		if !q.releaseAll() {
+			q.balance("release of the held tasks")
 			return
 		}
-		release = make(chan struct{})
 	}
-	r.Max("sequential_peak_minus_limit site="+st.name, int64(atomic.LoadInt32(&o.max)-limit))
-	r.Shape(fmt.Sprintf("sequential site=%s max=%d extra=%d yield=%d", st.name, limit, extra, o.yields))
+
+	peakAsked := atomic.LoadInt32(&o.max) // B3's preferred tasks legitimately take slots beyond max
+	// B3: preferred-peer / self messages do not ask, but take and return a slot
+	prefRuns := 0
+	if st.preferred != nil {
+		held := 0
+		for i := 0; i < int(limit); i++ {
+			if adm, _ := q.deliverHeld(10, i); adm {
+				held++
+			}
+		}
+		if held == int(limit) {
+			k := rng.Range(1, 4)
+			var kinds []string
+			for i := 0; i < k; i++ {
+				self := rng.Chance(1, 3)
+				endsBefore := atomic.LoadInt64(&o.ends)
+				err := st.preferred(i, self)
+				kinds = append(kinds, map[bool]string{false: "preferred", true: "self"}[self])
+				if err != nil {
+					r.Inconclusive(fmt.Sprintf("%s refused a preferred/self message: %v", st.name, err))
+					break
+				}
+				prefRuns++
+				for w := 0; w < 400000 && atomic.LoadInt64(&o.ends) == endsBefore; w++ { // its worker ends asynchronously
+					if w < 2000 {
+						runtime.Gosched()
+					} else {
+						time.Sleep(50 * time.Microsecond)
+					}
+				}
+				if atomic.LoadInt64(&o.ends) == endsBefore {
+					r.Inconclusive("a preferred-peer message did not complete within the wait bound")
+					break
+				}
+				// the max asked tasks are still running: every further asked message must be refused
+				for j := 0; j < rng.Range(1, 3); j++ {
+					adm, _ := q.deliverHeld(11, i*10+j)
+					r.Eval(1)
+					if adm {
+						r.Violation(c.Idx, "site="+st.name+" mode=sequential-with-preferred",
+							fmt.Sprintf("%s, max=%d: %d asked tasks are held open, %d preferred/self message(s) %v ran start to end, then a further message of a regular peer was admitted: %d asked tasks running", st.name, limit, limit, i+1, kinds, int(limit)+1),
+							q.detail(map[string]interface{}{"held": held, "preferred_messages": kinds}))
+						q.releaseAll()
+						return
+					}
+				}
+			}
+			r.Count("preferred_interplay_runs site="+st.name, 1)
+			r.Count("preferred_messages_completed", prefRuns)
+		}
+		if !q.releaseAll() {
+			q.balance("release after the preferred-peer phase")
+			return
+		}
+	}
+	if !q.balance("end of the sequential case") {
+		return
+	}
+	r.Max("sequential_peak_minus_limit site="+st.name, int64(peakAsked-limit))
+	r.Shape(fmt.Sprintf("sequential site=%s max=%d extra=%d yield=%d fails=%s pref=%d", st.name, limit, extra, o.yields, bucket(len(q.order)), prefRuns))
 	if r.NeedSample() && rng.Chance(1, 6) {
-		r.Sample(map[string]interface{}{"mode": "sequential", "site": st.name, "max": limit, "delivered_per_wave": int(limit) + extra, "in_flight_peak": o.max, "refused": o.denied})
+		r.Sample(map[string]interface{}{"mode": "sequential", "site": st.name, "max": limit, "delivered_per_wave": int(limit) + extra, "in_flight_peak": peakAsked, "refused": o.denied, "failing_messages_before": q.order, "preferred_messages": prefRuns})
 	}
+}
+
+func kindsOf(m map[string]int) []string {
+	var out []string
+	for k := range m {
+		out = append(out, k)
+	}
+	sort.Strings(out)
+	return out
 }
 
 // ------------------------------------------------------------------------------------------------
@@ -396,7 +829,7 @@ func concurrentCase(r *vk.Run, c *vk.Case, kind int) {
 			defer wg.Done()
 			<-start
 			for i := 0; i < per; i++ {
-				err := st.deliver(s, i)
+				err := st.deliver("ok", s, i)
 				switch {
 				case err == nil:
 					atomic.AddInt64(&accepted, 1)
